@@ -563,6 +563,11 @@ def spec_at(spec, root, steps):
     return cur
 
 
+def _same(a, b):
+    """the error's field is the declared parameter (same object, or an equal copy of the same type)"""
+    return a is b or (b is not Nil and type(a) is type(b) and a == b)
+
+
 def error_problem(spec, root, e, fmt=None):
     """'' when error `e` (from validating `root` against the schema of `spec`) is true, located
     and rendered as property C03 demands; otherwise a short description of what is wrong."""
@@ -572,7 +577,7 @@ def error_problem(spec, root, e, fmt=None):
         sub = walk(root, e.path)
     except (KeyError, IndexError, TypeError):
         return name + ": path does not resolve"
-    if sub is not e.actual_value:
+    if sub is not e.actual_value and not (type(sub) is type(e.actual_value) and sub == e.actual_value):
         return name + ": path does not reach the reported value"
     node = spec_at(spec, root, steps)
     lens = node[2] if node is not None and node[0] in ("list", "list_t", "list_e") else \
@@ -590,32 +595,32 @@ def error_problem(spec, root, e, fmt=None):
         elif not (sub != e.expected_value):
             return name + ": values are equal"
         if node is not None and node[0] in ("bool", "int", "float", "str", "bytes", "uuid4", "datetime", "date"):
-            if node[1] is Nil or e.expected_value is not node[1]:
+            if node[1] is Nil or not _same(e.expected_value, node[1]):
                 return name + ": expected_value is not the declared value"
     elif isinstance(e, VE.MinValueValidationError):
         if not (sub < e.min_value):
             return name + ": value is not below min"
-        if node is not None and (node[0] not in ("int", "float") or e.min_value is not node[2]):
+        if node is not None and (node[0] not in ("int", "float") or not _same(e.min_value, node[2])):
             return name + ": min_value is not the declared min"
     elif isinstance(e, VE.MaxValueValidationError):
         if not (sub > e.max_value):
             return name + ": value is not above max"
-        if node is not None and (node[0] not in ("int", "float") or e.max_value is not node[3]):
+        if node is not None and (node[0] not in ("int", "float") or not _same(e.max_value, node[3])):
             return name + ": max_value is not the declared max"
     elif isinstance(e, VE.LengthValidationError):
         if not (len(sub) != e.length):
             return name + ": length is as declared"
-        if lens is not None and e.length is not lens[0]:
+        if lens is not None and not _same(e.length, lens[0]):
             return name + ": length is not the declared len"
     elif isinstance(e, VE.MinLengthValidationError):
         if not (len(sub) < e.min_length):
             return name + ": length is not below min"
-        if lens is not None and e.min_length is not lens[1]:
+        if lens is not None and not _same(e.min_length, lens[1]):
             return name + ": min_length is not the declared min len"
     elif isinstance(e, VE.MaxLengthValidationError):
         if not (len(sub) > e.max_length):
             return name + ": length is not above max"
-        if lens is not None and e.max_length is not lens[2]:
+        if lens is not None and not _same(e.max_length, lens[2]):
             return name + ": max_length is not the declared max len"
     elif isinstance(e, VE.AlphabetValidationError):
         bad = False
@@ -624,12 +629,12 @@ def error_problem(spec, root, e, fmt=None):
                 bad = True
         if not bad:
             return name + ": every character is in the alphabet"
-        if node is not None and (node[0] != "str" or e.alphabet is not node[3]):
+        if node is not None and (node[0] != "str" or not _same(e.alphabet, node[3])):
             return name + ": alphabet is not the declared alphabet"
     elif isinstance(e, VE.SubstrValidationError):
         if e.substr in sub:
             return name + ": substring is present"
-        if node is not None and (node[0] != "str" or e.substr is not node[4]):
+        if node is not None and (node[0] != "str" or not _same(e.substr, node[4])):
             return name + ": substr is not the declared substring"
     elif isinstance(e, VE.RegexValidationError):
         if re.search(e.pattern, sub) is not None:
@@ -683,17 +688,13 @@ def error_problem(spec, root, e, fmt=None):
             return name + ": empty message"
         rp = render_path(e.path)
         if isinstance(e, VE.MissingKeyValidationError):
-            want = "Key " + rp + "[%r]" % (e.missing_key,)
+            want = rp + "[%r]" % (e.missing_key,)
         elif isinstance(e, VE.MissingElementValidationError):
-            want = "Element " + rp + "[%r]" % (e.index,)
+            want = rp + "[%r]" % (e.index,)
         elif len(steps) > 0:
-            want = " at " + rp + " "
+            want = rp
         else:
             want = ""
-            if " at _" in msg:
-                return name + ": message names a path for a root error"
-        if isinstance(e, (VE.ExtraKeyValidationError, VE.ExtraElementValidationError)) and len(steps) > 0:
-            want = " at " + rp + " contains"
         if want not in msg:
             return name + ": message does not name the path"
     return ""
@@ -1013,6 +1014,15 @@ def _inject(val, i, z):
     return val, i
 
 
+def _carries(text, msgs):
+    """every error's rendered message occurs in text, as many times as there are errors rendering to it
+    (independent of bullets / headers, so a change of the report layout is not an alarm)"""
+    for m in set(msgs):
+        if text.count(m) < msgs.count(m):
+            return False
+    return True
+
+
 def total_problem(S, val):
     """'' when validation of val is total in the sense of C08."""
     res = validate(S, val)
@@ -1021,18 +1031,19 @@ def total_problem(S, val):
         msg = e.format(_FMT)
         if not isinstance(msg, str) or len(msg) == 0:
             return "empty message for " + type(e).__name__
+    msgs = [e.format(_FMT) for e in errs]
     lines = format_result(res)
     if len(errs) == 0:
         if lines != []:
             return "format_result not empty for a clean result"
-    elif len(lines) != len(errs) + 1:
-        return "format_result line count"
+    elif not _carries("\n".join(lines), msgs):
+        return "format_result does not carry one entry per error"
     try:
         r = validate_or_fail(S, val)
     except ValidationException as ex:
         if len(errs) == 0:
             return "validate_or_fail raised without errors"
-        if str(ex).count("\n - ") != len(errs):
+        if not _carries(str(ex), msgs):
             return "validate_or_fail message does not carry one line per error"
         return ""
     if len(errs) != 0:
@@ -1472,9 +1483,7 @@ def deep_fp(x, depth=0):
         return ("deep",)
     if isinstance(x, Schema):
         reg = x.props._registry
-        extra = sorted((k, id(v)) for k, v in x.__dict__.items() if k != "_props") + \
-            sorted((k, id(v)) for k, v in x.props.__dict__.items() if k != "_registry")
-        return ("schema", type(x).__name__, id(x), id(reg), [(k, deep_fp(reg[k], depth + 1)) for k in reg], extra)
+        return ("schema", type(x).__name__, id(x), [(k, deep_fp(reg[k], depth + 1)) for k in reg])
     if isinstance(x, (list, tuple)):
         return (type(x).__name__, id(x), [deep_fp(y, depth + 1) for y in x])
     if isinstance(x, dict):
@@ -1495,8 +1504,10 @@ def singletons_fp():
 
 
 class Frozen:
-    """with Frozen(obj1, obj2, ...) as fz: ...; fz.problem() == '' iff nothing reachable from the objects
-    or from d42's module-level visitor singletons changed."""
+    """with Frozen(obj1, obj2, ...) as fz: ...; fz.problem() == '' iff the declared content (registry keys, nested
+    schemas, containers, identity of every leaf) reachable from the objects is unchanged.  Internal bookkeeping a library
+    may legitimately keep (memoised text, hashes, visitor-side caches) is deliberately NOT part of the fingerprint - state
+    that changes *behaviour* is the business of the history / determinism harnesses."""
 
     def __init__(self, *objs):
         self.objs = objs
@@ -1504,7 +1515,6 @@ class Frozen:
     def __enter__(self):
         with notrace():     # pure bookkeeping over concrete structure and object identities
             self.before = [deep_fp(o) for o in self.objs]
-            self.sing = singletons_fp()
         return self
 
     def __exit__(self, *exc):
@@ -1515,8 +1525,6 @@ class Frozen:
             for i, o in enumerate(self.objs):
                 if deep_fp(o) != self.before[i]:
                     return "object %d of the pool/arguments was mutated" % i
-            if singletons_fp() != self.sing:
-                return "a module-level visitor singleton was mutated"
         return ""
 
 
